@@ -4,6 +4,7 @@ import UnifexModel.Proto.AtomicQueue
 import UnifexModel.Proto.ThreadPool
 import UnifexModel.Proto.NewThread
 import UnifexModel.Proto.Trampoline
+import UnifexModel.Proto.InlineSched
 
 namespace Unifex.Driver.Entries
 open Unifex.Proto Unifex.Core
@@ -58,5 +59,12 @@ def trampoline : ModelEntries :=
       { admitH := fun _ => .notFinal []
         states := fun _ => 0
         query := Trampoline.answer })])
+
+/-- sequential model: `ask inlinesched run | <tree>` answers with the event log -/
+def inlinesched : ModelEntries :=
+  ("inlinesched", [("run",
+      { admitH := fun _ => .notFinal []
+        states := fun _ => 0
+        query := InlineSched.answer })])
 
 end Unifex.Driver.Entries
